@@ -15,6 +15,7 @@ Record cost_in := {
   k_nprod : Q; k_ninj : Q;
   k_c1p_corr : Q; k_c1i_corr : Q;                (* per-well costs from the drilling-cost correlation (already adjusted) *)
   k_lateral : Q;                                 (* cost of the non-vertical sections *)
+  k_sbt : bool; k_junction : Q;                  (* SBTEconomics: 1.05 is inside the per-well costs; cost to the junction is added *)
   (* stimulation, gathering, plant, exploration, piping, district network *)
   k_stim_valid : bool; k_stim_fixed : Q; k_stim_adj : Q;
   k_gath_valid : bool; k_gath_fixed : Q; k_gath_adj : Q; k_cpumps : Q;
@@ -46,7 +47,9 @@ Definition c1i (k : cost_in) : Q :=
 Definition wells_sum (k : cost_in) : Q := c1p k * k_nprod k + c1i k * k_ninj k.
 (* well field: a user-supplied per-well cost is used verbatim; otherwise laterals are added and 5 % indirect costs *)
 Definition cwell (k : cost_in) : Q :=
-  if k_ppwc_valid k then wells_sum k else q105 * (wells_sum k + k_lateral k).
+  if k_ppwc_valid k then wells_sum k
+  else if k_sbt k then wells_sum k + k_lateral k + k_junction k
+  else q105 * (wells_sum k + k_lateral k).
 
 Definition cstim (k : cost_in) : Q :=
   if k_stim_valid k then k_stim_fixed k else q105 * q115 * k_stim_adj k * k_ninj k * q125.
